@@ -12,8 +12,10 @@ import (
 	"fmt"
 	"math/big"
 	"runtime/debug"
+	"sort"
 	"strconv"
 	"strings"
+	"sync"
 	"testing"
 	"time"
 
@@ -38,11 +40,9 @@ type authExec struct {
 	mode  int // 0 key, 1 error, 2 malformed stack, 3 short key, 4 exit code 11
 	key   []byte
 	delay time.Duration
-	calls int
 }
 
 func (e *authExec) RunSmcMethodByID(ctx context.Context, accountID ton.AccountID, methodID int, params tlb.VmStack) (uint32, tlb.VmStack, error) {
-	e.calls++
 	if e.delay > 0 {
 		time.Sleep(e.delay)
 	}
@@ -170,6 +170,9 @@ func genC19(seed uint64, index int, tier string) *run.Plan {
 	if g.Intn(5) == 0 {
 		p.P["exec_delay_ms"] = []int{1, 500, 3000}[g.Intn(3)]
 	}
+	if g.Intn(3) == 0 {
+		p.P["burst"] = 2 + g.Intn(4) // this many requests hit the server at the same instant
+	}
 	alter := 0
 	if g.Intn(5) != 0 {
 		alter = 1 + g.Intn(19)
@@ -246,13 +249,24 @@ func execC19(t *testing.T, w *core.World, p *run.Plan, r *run.Result) {
 	if len(w.Violations) > 0 {
 		return
 	}
+	var vmu sync.Mutex
+	pendingChecks := 0 // checker goroutines still running
+	opsScheduled := 0  // check events that have fired
+	nCheckOps := 0
+	for _, op := range p.Ops {
+		if op.Kind == "check" {
+			nCheckOps++
+		}
+	}
 	var issued []c19issued
 	issue := func(si int) string {
 		pl, err := servers[si].srv.GeneratePayload()
 		if err != nil {
 			w.Violate("C19.generate", "C19.generate", err.Error())
 		}
+		vmu.Lock()
 		issued = append(issued, c19issued{secret: servers[si].secret, payload: pl, at: w.Now()})
+		vmu.Unlock()
 		return pl
 	}
 	payload := issue(0)
@@ -279,6 +293,7 @@ func execC19(t *testing.T, w *core.World, p *run.Plan, r *run.Result) {
 		panicked any
 		stack    string
 		proof    tonconnect.Proof
+		ord      int
 	}
 	var verdicts []verdict
 	w.AtAbs(signAt, "wallet signs", func() {
@@ -376,36 +391,65 @@ func execC19(t *testing.T, w *core.World, p *run.Plan, r *run.Result) {
 		op := op
 		last := i == len(p.Ops)-1
 		w.AtAbs(time.Duration(op.AtMs)*time.Millisecond+time.Duration(i+1)*time.Microsecond, fmt.Sprintf("check@server%d", op.A), func() {
+			vmu.Lock()
+			opsScheduled++
+			vmu.Unlock()
 			if proof == nil {
-				if last {
-					done = true
-				}
 				return
 			}
-			pr := *proof
-			go func() {
-				w.Tag("checker")
-				v := verdict{at: w.Now(), srv: op.A, proof: pr}
-				func() {
-					defer func() {
-						if x := recover(); x != nil {
-							v.panicked = x
-							v.stack = repoFrames(string(debug.Stack()))
-						}
+			burst := p.Get("burst", 1)
+			if burst < 1 {
+				burst = 1
+			}
+			var wg sync.WaitGroup
+			defer func() { _ = &wg }()
+			for b := 0; b < burst; b++ {
+				b := b
+				pr := *proof
+				wg.Add(1)
+				vmu.Lock()
+				pendingChecks++
+				vmu.Unlock()
+				go func() {
+					defer wg.Done()
+					w.Tag(fmt.Sprintf("checker-%d", b))
+					if b%2 == 1 {
+						// other clients fetch payloads while proofs are being checked
+						func() {
+							defer func() { _ = recover() }()
+							issue(op.A % len(servers))
+						}()
+					}
+					v := verdict{at: w.Now(), srv: op.A, proof: pr, ord: i*16 + b}
+					func() {
+						defer func() {
+							if x := recover(); x != nil {
+								v.panicked = x
+								v.stack = repoFrames(string(debug.Stack()))
+							}
+						}()
+						s := servers[op.A%len(servers)]
+						v.ok, v.key, v.err = s.srv.CheckProof(context.Background(), &pr, s.srv.CheckPayload, tonconnect.StaticDomain(domain))
 					}()
-					s := servers[op.A%len(servers)]
-					v.ok, v.key, v.err = s.srv.CheckProof(context.Background(), &pr, s.srv.CheckPayload, tonconnect.StaticDomain(domain))
+					vmu.Lock()
+					verdicts = append(verdicts, v)
+					pendingChecks--
+					vmu.Unlock()
 				}()
-				verdicts = append(verdicts, v)
-				if last {
-					done = true
-				}
-			}()
+			}
+			_ = last
 		})
 	}
-	w.Run(func() bool { return done }, 10000, 12*time.Hour)
+	w.Run(func() bool {
+		vmu.Lock()
+		defer vmu.Unlock()
+		return done || (opsScheduled == nCheckOps && pendingChecks == 0)
+	}, 20000, 12*time.Hour)
+	vmu.Lock()
+	defer vmu.Unlock()
 	r.Nontrivial = len(verdicts) > 0
 	alt := "alter" + strconv.Itoa(alter)
+	sort.SliceStable(verdicts, func(i, j int) bool { return verdicts[i].ord < verdicts[j].ord })
 
 	for _, v := range verdicts {
 		s := servers[v.srv%len(servers)]
